@@ -268,6 +268,9 @@ def ref_hist_float(elt, m0, ops):
             out += items_mat(m)
     return out
 
+# how many float histories streams_close_float judged / declined to judge (reported in the coverage by C03.extra_coverage)
+FLOAT_JUDGED = {"judged": 0, "not_judged_scale_above_1e150": 0}
+
 def streams_close_float(elt, exp, got, rel=1e-9):
     """tolerant comparison of an f64 / Complex<f64> history with its reference: integers and panic positions exactly; a float within
     rel * (largest finite magnitude of the whole history) -- the operations are entrywise sums/products of the operands, so the
@@ -281,7 +284,10 @@ def streams_close_float(elt, exp, got, rel=1e-9):
             z = complex(it[1])
             if math.isfinite(z.real) and math.isfinite(z.imag): vals.append(abs(z))
     scale = max(vals, default=0.0)
-    if not math.isfinite(scale) or scale > 1e150: return None      # overflow territory: outside the quantifier ("all element values" of moderate size)
+    if not math.isfinite(scale) or scale > 1e150:                  # overflow territory: outside the quantifier ("all element values" of moderate size)
+        FLOAT_JUDGED["not_judged_scale_above_1e150"] += 1           # a counted skip: the number appears in the coverage of C03
+        return None
+    FLOAT_JUDGED["judged"] += 1
     k = 0
     for n, it in enumerate(exp):
         if it[0] == 'P':
